@@ -62,6 +62,10 @@ pub struct BackendTrace {
     pub pos: usize,
     /// FallibleIter: indices of reads that yield Err
     pub err_at: Vec<usize>,
+    /// FallibleIter: the wrapped iterator is *not fused*: it yields a spurious end-of-data at
+    /// this item index and would continue afterwards (the adapter must fuse it)
+    #[serde(default)]
+    pub gap_at: Option<usize>,
     pub ops: Vec<BOp>,
 }
 
@@ -433,9 +437,40 @@ fn exec_iter<W: BitArray>(t: &BackendTrace, init: &[W], ctx: &mut Ctx) -> Result
         k += 1;
         if k > init.len() + t.err_at.len() + 1 { break; }
     }
-    let want = items.clone();
-    let no_errors = !items.iter().any(|x| x.is_err());
-    let mut b = FallibleIteratorReadWords::new(items.into_iter());
+    // a legal but non-fused iterator: yields `None` once at `gap_at`, then continues
+    struct Gappy<W> {
+        items: Vec<Result<W, u32>>,
+        i: usize,
+        gap_at: Option<usize>,
+        gap_done: bool,
+    }
+    impl<W: Clone> Iterator for Gappy<W> {
+        type Item = Result<W, u32>;
+        fn next(&mut self) -> Option<Self::Item> {
+            if Some(self.i) == self.gap_at && !self.gap_done {
+                self.gap_done = true;
+                return None;
+            }
+            let r = self.items.get(self.i).cloned();
+            if r.is_some() {
+                self.i += 1;
+            }
+            r
+        }
+        fn size_hint(&self) -> (usize, Option<usize>) {
+            let n = self.items.len() - self.i;
+            (n, Some(n))
+        }
+    }
+    impl<W: Clone> ExactSizeIterator for Gappy<W> {}
+    let gap = t.gap_at.filter(|g| *g <= items.len());
+    if gap.is_some() {
+        ctx.stats.hit("fault-non-fused-iterator");
+    }
+    // what the consumer must see: everything up to the first end-of-data, then nothing
+    let want: Vec<Result<W, u32>> = match gap { Some(g) => items[..g].to_vec(), None => items.clone() };
+    let no_errors = !want.iter().any(|x| x.is_err()) && gap.is_none();
+    let mut b = FallibleIteratorReadWords::new(Gappy { items, i: 0, gap_at: gap, gap_done: false });
     let mut idx = 0;
     for (i, op) in t.ops.iter().enumerate() {
         ctx.op = i;
@@ -534,5 +569,6 @@ pub fn generate(seed: u64, _prop: &str, _thorough: bool) -> BackendTrace {
             _ => BOp::Cloned,
         });
     }
-    BackendTrace { word, kind, init, pos, err_at, ops }
+    let gap_at = if kind == Kind::FallibleIter && frng.chance(1, 3) { Some(frng.usize(n + 1)) } else { None };
+    BackendTrace { word, kind, init, pos, err_at, gap_at, ops }
 }
